@@ -18,6 +18,10 @@ ASSUMPTIONS = ["simulated cluster vlib/simkafka; reply timestamp -1 for CreateTi
 
 def evaluate(case, obs):
     out = Outcome()
+    if getattr(obs, "stop_raised", None):
+        # an exception escaping producer.stop() (the sender task died of a non-Kafka error): accepted records are left
+        # behind; reported under this property's own clause names
+        out.fail("stop_waits", "stop_raised:" + obs.stop_raised[0], {"error": obs.stop_raised[1]})
     if obs.start_error is not None:
         out.label("start_failed")
         return out
